@@ -63,9 +63,75 @@ TLA = [
     # a cycle root that rejects after an await: a later importer of a member rejects with the same error and does not run
     ({"root": "import 'a'; print('root');", "a": "import 'b'; print('a:start'); await null; throw new Error('boom-a');", "b": "import 'a'; print('b');",
       "d": "import 'b'; print('d');"}, ["root", "d", "b"], "trace=b,a:start outcomes=boom-a,boom-a,boom-a"),
+    # a cycle member (m3) that waits for fewer async dependencies than the cycle root (m0): repaired in f6eb11f, used to stay pending forever
+    ({"m0": "import 'm2'; import 'm3'; print('m0');", "m1": "import 'm0'; print('m1:s'); await null; print('m1:e');", "m2": "print('m2:s'); await null; print('m2:e');",
+      "m3": "import 'm1'; print('m3');"}, ["m0"], "trace=m2:s,m1:s,m2:e,m1:e,m3,m0 outcomes=-"),
+    # ... and one that waits for more (m1 waits for m2 and m3, the root only for m1)
+    ({"m0": "import 'm1'; print('m0');", "m1": "import 'm0'; import 'm2'; import 'm3'; print('m1');", "m2": "print('m2:s'); await null; print('m2:e');",
+      "m3": "print('m3:s'); await null; await null; await null; print('m3:e');"}, ["m0"], "trace=m2:s,m3:s,m2:e,m3:e,m1,m0 outcomes=-"),
     # evaluating an async graph twice runs nothing twice
     ({"main": "import 'x'; print('main');", "x": "print('x:start'); await null; print('x:end');"}, ["main", "main", "x"], "trace=x:start,x:end,main outcomes=-,-,-"),
 ]
+
+def tla_graph(r):
+    """a module graph in which modules may use top-level await (0-3 awaits between their two prints); nothing throws"""
+    n = 2 + r() % 5
+    kind = r() % 3
+    deps = []
+    for m in range(n):
+        ds = []
+        for _ in range(r() % 3 + (1 if m == 0 else 0)):
+            if kind == 0:
+                if m + 1 < n:
+                    ds.append(m + 1 + r() % (n - m - 1))
+            else:
+                ds.append(r() % n)
+        deps.append(ds)
+    if kind == 2:                       # a chain of awaiting modules under the root: a -> b(TLA) -> c(TLA) ...
+        deps = [[m + 1] if m + 1 < n else [] for m in range(n)]
+        if n > 2 and r() % 2:
+            deps[0].append(2 + r() % (n - 2))
+    awaits = [[0, 0, 1, 2, 3][r() % 5] for _ in range(n)]
+    if kind == 2:
+        awaits = [0] + [1 + r() % 3 for _ in range(n - 1)]
+    mods = {}
+    for m in range(n):
+        mods["m%d" % m] = "".join("import 'm%d'; " % d for d in deps[m]) + "print('m%d:s'); " % m + "await null; " * awaits[m] + "print('m%d:e');" % m
+    roots = ["m0"] + (["m%d" % (r() % n)] if r() % 3 == 0 else [])
+    return deps, awaits, mods, roots
+
+
+def tla_order_violation(deps, roots, trace):
+    """the property's own statement as an oracle on the engine's trace (valid with top-level await): every body runs at most
+    once, every module reachable from an evaluated root runs, and a body STARTS only after every non-cyclic dependency has ENDED"""
+    n = len(deps)
+    reach = [set(d) for d in deps]
+    changed = True
+    while changed:
+        changed = False
+        for a in range(n):
+            new = set().union(*[reach[b] for b in reach[a]]) if reach[a] else set()
+            if not new <= reach[a]:
+                reach[a] |= new
+                changed = True
+    pos = {}
+    for i, ev in enumerate(trace):
+        if ev in pos:
+            return "%s printed twice" % ev
+        pos[ev] = i
+    want = set()
+    for ro in roots:
+        k = int(ro[1:])
+        want |= {k} | reach[k]
+    for m in sorted(want):
+        if "m%d:s" % m not in pos or "m%d:e" % m not in pos:
+            return "module m%d (reachable from an evaluated root) did not run to its end" % m
+    for x in sorted(want):
+        for d in deps[x]:
+            if d != x and x not in reach[d] and pos["m%d:e" % d] > pos["m%d:s" % x]:
+                return "m%d started before its non-cyclic dependency m%d had finished" % (x, d)
+    return None
+
 
 FIXED = [
     ([[1, 2], [3, 0], [3], [1]], [1, 0, 0, 0], [0, 2, 1, 3]),   # a cross edge into a cycle whose root throws: the error is recorded on every member
@@ -138,6 +204,44 @@ def run(ck):
         if g != want:
             ck.fail_input({"site": "top-level-await-scenario", "input": json.dumps(mods), "roots": roots, "expected": want, "actual": g,
                            "oracle": "trace worked out by hand from ECMA-262 16.2.1.5.3 (regression scenario, outside the Lean model)"})
+    # ---- generated graphs WITH top-level await: outside the Lean model; the dependency-order statement itself is the oracle
+    tgraphs = [tla_graph(r) for _ in range(150 if quick else 4000)]
+    treqs = ["raw roots=%s %s" % (",".join(roots), " ".join("%s=%s" % (k, v.encode().hex()) for k, v in mods.items())) for _, _, mods, roots in tgraphs]
+    rc, out, err = ck.run_bin(bins["c17"], input="\n".join(treqs) + "\n")
+    got = [x for x in out.split("\n") if x]
+    tbad = 0
+    # the executable Lean model of async module evaluation (C17/Async.lean) predicts the exact trace of these graphs
+    areqs = ["arun deps=%s awaits=%s roots=%s" % (";".join("%d:%s" % (m, ",".join(map(str, ds))) for m, ds in enumerate(deps)), ",".join(map(str, awaits)),
+                                                 ",".join(ro[1:] for ro in roots)) for deps, awaits, _, roots in tgraphs]
+    amodel = ck.driver("drv-c17", areqs)
+    adrift = 0
+    for (deps, awaits, mods, roots), q, g, am in zip(tgraphs, treqs, got + ["missing"] * len(tgraphs), amodel):
+        if g != am:
+            adrift += 1
+            if tla_order_violation(deps, roots, [x for x in (am.split(" ")[0][6:]).split(",") if x]) is None and "pending" not in am and g.startswith("trace="):
+                # the model's trace satisfies the property and the engine's differs: reported as model-vs-implementation
+                # disagreement; the order oracle below decides whether the engine violates the property itself
+                ck.model_drift({"input": json.dumps(mods), "roots": roots, "model": am, "implementation": g})
+            else:
+                ck.model_drift({"input": json.dumps(mods), "roots": roots, "model": am, "implementation": g, "note": "the model's own trace is suspect"})
+    ck.oblige("correspondence:async module evaluation (top-level await) trace == C17.Async model on %d generated graphs" % len(tgraphs), "correspondence",
+              adrift == 0, "%d graphs differ" % adrift if adrift else None)
+    for (deps, awaits, mods, roots), q, g in zip(tgraphs, treqs, got + ["missing"] * len(tgraphs)):
+        mm = re.fullmatch(r"trace=(\S*) outcomes=(\S*)", g)
+        if not mm:
+            tbad += 1
+            ck.fail_input({"site": "engine-panic" if g in ("panic", "missing") else "engine-answer-unreadable", "input": json.dumps(mods), "roots": roots, "expected": "trace and outcomes", "actual": g[:300]})
+            continue
+        trace = [x for x in mm.group(1).split(",") if x]
+        v = tla_order_violation(deps, roots, trace)
+        if v is None and set(mm.group(2).split(",")) != {"-"}:
+            v = "an Evaluate promise was rejected (%s) although no module throws" % mm.group(2)
+        if v:
+            tbad += 1
+            ck.fail_input({"site": "top-level-await-order", "input": json.dumps(mods), "roots": roots, "expected": "every body once, after all of its non-cyclic dependencies have finished", "actual": v,
+                           "trace": trace, "oracle": "the dependency-order statement of the property (ECMA-262 16.2.1.5.3), checked on the engine's trace"})
+    ck.oblige("oracle:dependency order (a body starts after its non-cyclic dependencies ended, each body once, all reachable modules run) on %d generated graphs with top-level await"
+              % len(tgraphs), "differential", tbad == 0, "%d graphs" % tbad if tbad else None)
     ck.oblige("correspondence:bodies run and Evaluate outcomes == C17 model on %d module graphs (%d bodies)" % (len(cases), stats["bodies"]), "correspondence", True)
     ck.coverage.update({
         "evaluations": len(cases),
@@ -146,5 +250,6 @@ def run(ck):
                 "1-4 Evaluate calls per graph (the root first, then the root again or other modules); two import styles (namespace / named live bindings); %d fixed graphs. distinct = distinct requests" % len(FIXED),
         "graphs_with_throwing_module": stats["with_error"], "bodies_run": stats["bodies"],
         "samples": reqs[:2],
-        "partial": ["top-level await / async modules, dynamic import and synthetic modules are outside the model"],
+        "tla_graphs": len(tgraphs), "tla_graphs_with_awaiting_chain": len([1 for d, a, _, _ in tgraphs if any(a[x] and any(a[y] for y in d[x]) for x in range(len(d)))]),
+        "partial": ["top-level await / async modules are outside the Lean model: generated async graphs are checked against the dependency-order oracle only (not against a predicted trace); dynamic import and synthetic modules are not covered"],
     })
